@@ -76,7 +76,9 @@ def make_bc(g, setup):
             bf = getattr(bc, side)
             t += 1
             if ax == pax:
-                bf.periodic = True
+                # either face declares the axis periodic: both / low only / high only, chosen from the grid
+                if U.flag_mode(sum(g.dims), g.spec["org"], len(g.cls)) in ("both", ("lo", "hi")[hi]):
+                    bf.periodic = True
             elif setup == "robin":
                 bf.a = 1.0
                 bf.b = (64.0 + t) * (1.0 if hi else -1.0)
@@ -168,7 +170,7 @@ def _loop_part(g, case, res, add, residual, D, u, beta, gamma):
             acts = [("keep", "keep")]
         for (act1, act2) in acts:
             for dpat in DT_PATTERNS:
-                for reuse_list in (False, True):
+                for reuse_list in (False, True, "sources_first"):
                     phi = pf.CellVariable(g.mesh, old0.copy(), make_bc(g, setup))
                     if akind == "default":          # transientTerm(phi, dt): the documented default alpha = 1
                         alpha = 1.0
@@ -181,7 +183,7 @@ def _loop_part(g, case, res, add, residual, D, u, beta, gamma):
                     eqlist = None
                     label = "alpha %s, between steps %s/%s, dt pattern %s, %s" % (
                         akind, act1, act2, "/".join("dt" if k == 1 else "dt/2" for k in dpat),
-                        "one reused term list" if reuse_list else "term list rebuilt per step")
+                        {False: "term list rebuilt per step", True: "one reused term list", "sources_first": "reused source vectors first in the list"}[reuse_list])
                     for step in range(3):
                         act = (None, act1, act2)[step]
                         if act in ("edit", "edit_ppm", "edit_apply", "assign", "advance", "replace"):
@@ -209,7 +211,10 @@ def _loop_part(g, case, res, add, residual, D, u, beta, gamma):
                         oldv = np.asarray(phi.value, dtype=float).copy()
                         avals = alpha if akind in ("scalar", "default") else (np.array(alpha) if akind == "ndarray" else np.asarray(alpha.value, dtype=float).copy())
                         tt = pf.transientTerm(phi, dt) if akind == "default" else pf.transientTerm(phi, dt, alpha)
-                        if reuse_list:
+                        if reuse_list == "sources_first":
+                            # the prebuilt source vectors come first in the list and are reused in every step
+                            eq = vs + [tt] + Ms
+                        elif reuse_list:
                             if eqlist is None:
                                 eqlist = [tt] + Ms + vs
                             else:
@@ -219,7 +224,11 @@ def _loop_part(g, case, res, add, residual, D, u, beta, gamma):
                             eq = [tt] + Ms + vs
                         n_before = len(eq)
                         ids_before = [id(t) for t in eq]
+                        vs_before = [np.array(v_) for v_ in vs]
                         ret = pf.solvePDE(phi, eq)
+                        if not all(np.array_equal(a_, b_) for a_, b_ in zip(vs_before, vs)):
+                            add("loop_terms_modified", "%s: solvePDE changed a source vector it was given (step %d)" % (label, step + 1))
+                            break
                         res["evals"] += 1
                         res["nontrivial"] += 1
                         if len(eq) != n_before or [id(t) for t in eq] != ids_before:
